@@ -53,7 +53,8 @@ def _check(assumptions, goal, timeout_ms):
 class Spec:
     """what a recoder is supposed to do (from its doc comment)"""
 
-    def __init__(self, kind, w, arg, state, lo=None, hi=None, tlo=None, thi=None, value_bits=None, buf=None):
+    def __init__(self, kind, w, arg, state, lo=None, hi=None, tlo=None, thi=None, value_bits=None, buf=None,
+                 max_value=None, note=""):
         self.kind = kind            # 'naf' | 'signed'
         self.w = w                  # bits per digit position (1 for wNAF)
         self.arg = arg              # 'u128' | 'u64' | 'scalar' | 'bytes28' | 'u129'
@@ -61,15 +62,17 @@ class Spec:
         self.lo, self.hi, self.tlo, self.thi = lo, hi, tlo, thi
         self.value_bits = value_bits  # the argument is below 2^value_bits (precondition / order bound)
         self.buf = buf              # name of the buffered-bit-count local (scalar signed recoders), concrete
+        self.max_value = max_value  # exclusive upper bound of the argument (documented / call-site domain)
+        self.note = note
 
 
-def check_recoder(mir, module, fname, spec, order=None, timeout_ms=20000):
+def check_recoder(mir, module, fname, spec, order=None, timeout_ms=20000, scalar_bytes=32):
     """returns dict(status in ok/fail/unknown/na, detail, queries, secs, witness)"""
     t0 = time.time()
     it = AlgoInterp(mir, Config(module))
     top = module + "::"
-    W = 320 if spec.arg in ("scalar",) else (520 if spec.arg == "bytes56" else 160)
-    nbytes = {"scalar": 32, "bytes28": 28, "bytes56": 57}.get(spec.arg)
+    nbytes = {"scalar": scalar_bytes, "bytes28": 28}.get(spec.arg)
+    W = (8 * nbytes + 24) if nbytes else 160
     res = {"status": "ok", "detail": [], "queries": 0, "secs": 0.0, "witness": None, "iterations": 0,
            "fns": []}
     # ---- argument
@@ -80,11 +83,13 @@ def check_recoder(mir, module, fname, spec, order=None, timeout_ms=20000):
         args = [SymV(n, bits, False)]
         nval = _ze(n, W)
         pre = [z3.ULT(nval, z3.BitVecVal(1 << spec.value_bits, W))] if spec.value_bits and spec.value_bits < bits else []
+        if spec.max_value:
+            pre.append(z3.ULT(nval, z3.BitVecVal(spec.max_value, W)))
     elif spec.arg == "u129":
         nh, nl = z3.BitVec("nh", 32), z3.BitVec("nl", 128)
         args = [SymV(nh, 32, False), SymV(nl, 128, False)]
         nval = (_ze(nh, W) << 128) + _ze(nl, W)
-        pre = [z3.ULE(nh, 1)]
+        pre = [z3.ULE(nh, 1), z3.ULT(nval, z3.BitVecVal((1 << 129) - 16, W))]
     else:
         byte_vars = [z3.BitVec("b%d" % i, 8) for i in range(nbytes)]
         nval = z3.BitVecVal(0, W)
@@ -112,6 +117,9 @@ def check_recoder(mir, module, fname, spec, order=None, timeout_ms=20000):
         if not mine(fr):
             return
         cur = {}
+        rng = it_ref.get()
+        if "j0" not in res and isinstance(rng, Agg) and rng.fields and isinstance(rng.fields[0], IntV):
+            res["j0"] = rng.fields[0].v
         for nm in spec.state:
             v = fr.cell(fr.debug_local(nm)).val
             cur[nm] = (_bvof(v), v.bits)
@@ -170,11 +178,19 @@ def check_recoder(mir, module, fname, spec, order=None, timeout_ms=20000):
     if spec.arg == "u129":
         vb = 129
 
+    _fw = {}
+
     def bound(j):
         """bound of the part of the remaining value that is not the carry"""
         e = vb - w * j
         if spec.kind == "naf":
-            return (1 << e) if e >= 0 else 0
+            b = (1 << e) if e >= 0 else 0
+            if spec.max_value:
+                # forward bound from the largest admissible argument: y' <= (y + 15) / 2
+                if j not in _fw:
+                    _fw[j] = (spec.max_value - 1) if j == 0 else (bound(j - 1) + 15) // 2
+                b = min(b, _fw[j])
+            return b
         return ((1 << e) - 1) if e > 0 else 0
 
     Mtop = (order - 1) if (order and spec.arg == "scalar") else ((1 << vb) - 1)
@@ -232,12 +248,27 @@ def check_recoder(mir, module, fname, spec, order=None, timeout_ms=20000):
         res["status"] = "na"
         res["detail"].append("byte layout not understood")
         return res
-    q("initial state", pre, val(st0, conc0) + u0 == nval, 0)
+    j0 = res.get("j0", 0)
+    pre_digits = z3.BitVecVal(0, W)
+    for j in range(j0):
+        dj = _bvof(digs0[j], 8)
+        pre_digits = pre_digits + (_se(dj, W) << (w * j))
+        if spec.kind == "naf":
+            q("digit out of range", pre, z3.Or(dj == 0, z3.And(z3.Extract(0, 0, dj) == 1, dj >= -15, dj <= 15)), j)
+        else:
+            q("digit out of range", pre, z3.And(dj >= spec.lo, dj <= spec.hi), j)
+    u0s = unloaded_value(loaded0, w * j0)
+    q("initial state", pre, ((val(st0, conc0) + u0s) << (w * j0)) + pre_digits == nval, 0)
+    inv0 = [z3.ULE(main_part(st0, conc0, u0s), z3.BitVecVal(bound(j0), W))]
+    if "cc" in spec.state:
+        inv0 += [z3.ULE(st0["cc"], 1), z3.ULE(val(st0, conc0) + u0s, z3.BitVecVal(rbound(j0), W))]
+    q("invariant does not hold initially", pre, z3.And(inv0), j0)
     loaded = set(loaded0)
     # ---- steps
-    for j in range(niter):
-        cur, digs, fresh, conc = cuts[j + 1]
-        pcur, pdigs, pfresh, pconc = cuts[j]
+    for k in range(niter):
+        j = j0 + k
+        cur, digs, fresh, conc = cuts[k + 1]
+        pcur, pdigs, pfresh, pconc = cuts[k]
         before = {nm: pfresh[nm] for nm in spec.state}
         after = {nm: cur[nm][0] for nm in spec.state}
         d = digs[j]
@@ -274,8 +305,7 @@ def check_recoder(mir, module, fname, spec, order=None, timeout_ms=20000):
             goalR = z3.And(de >= lo, de <= hi)
         q("digit out of range", assum, goalR, j)
         inv_after = [z3.ULE(main_part(after, conc, ua), z3.BitVecVal(bound(j + 1), W))]
-        if j == niter - 1 and "cc" in spec.state:
-            inv_after.append(after["cc"] == 0)
+        last_inv = inv_after
         if "cc" in spec.state:
             inv_after.append(z3.ULE(after["cc"], 1))
             inv_after.append(z3.ULE(remaining_after, z3.BitVecVal(rbound(j + 1), W)))
@@ -289,13 +319,30 @@ def check_recoder(mir, module, fname, spec, order=None, timeout_ms=20000):
             break
     # ---- final: nothing left, remaining digits (if any) are zero
     if not fails:
-        if bound(niter) != 0:
-            # e.g. scalar recoders with a top digit: the last bound must be 0 for exactness
-            fails.append("final bound %d is not zero (the recoding may drop high bits)" % bound(niter))
-        for j in range(niter, nd):
-            dj = final_digits[j]
-            if not (isinstance(dj, IntV) and dj.v == 0):
-                fails.append("digit %d beyond the loop is not zero" % j)
+        # what is left after the loop must be exactly the digits written after it (usually none)
+        jend = j0 + niter
+        lastfresh = cuts[niter][2]
+        lastconc = cuts[niter][3]
+        stf = {nm: lastfresh[nm] for nm in spec.state}
+        uf = unloaded_value(loaded, w * jend)
+        if uf is None:
+            uf = z3.BitVecVal(0, W)
+        invf = [z3.ULE(main_part(stf, lastconc, uf), z3.BitVecVal(bound(jend), W))]
+        if "cc" in spec.state:
+            invf += [z3.ULE(stf["cc"], 1), z3.ULE(val(stf, lastconc) + uf, z3.BitVecVal(rbound(jend), W))]
+        if spec.buf:
+            invf.append(z3.ULT(_ze(stf["acc"], W), z3.BitVecVal(1 << max(0, lastconc[spec.buf]), W)))
+        tail = z3.BitVecVal(0, W)
+        for j in range(jend, nd):
+            dj = _bvof(final_digits[j], 8)
+            tail = tail + (_se(dj, W) << (w * (j - jend)))
+            if not (isinstance(final_digits[j], IntV) and final_digits[j].v == 0):
+                lo, hi = (spec.tlo, spec.thi) if (j == nd - 1 and spec.kind != "naf") else (spec.lo, spec.hi)
+                if spec.kind == "naf":
+                    q("digit out of range", pre + invf, z3.Or(dj == 0, z3.And(z3.Extract(0, 0, dj) == 1, dj >= -15, dj <= 15)), j)
+                else:
+                    q("digit out of range", pre + invf, z3.And(dj >= lo, dj <= hi), j)
+        q("value left after the last digit", pre + invf, val(stf, lastconc) + uf == tail, jend)
     if fails:
         res["status"] = "fail"
         res["detail"] = fails[:4]
@@ -303,6 +350,8 @@ def check_recoder(mir, module, fname, spec, order=None, timeout_ms=20000):
         res["status"] = "unknown"
         res["detail"] = unknowns[:4]
     res["wall"] = time.time() - t0
+    res["witness_n"] = witness_argument(spec, res)
+    res["witness"] = None if res["witness"] is None else res["witness"][0]
     return res
 
 
@@ -312,13 +361,12 @@ def witness_argument(spec, res):
         return None
     j, mdl = res["witness"]
     try:
-        if spec.arg in ("u128", "u64"):
-            bits = 128 if spec.arg == "u128" else 64
+        if spec.arg in ("u128", "u64", "u129"):
+            bits = {"u128": 128, "u64": 64, "u129": 129}[spec.arg]
             if j == 0:
                 for d in mdl.decls():
                     if d.name() == "n":
                         return mdl[d].as_long()
-                nm = spec.state[0]
             tot = 0
             for nm in spec.state:
                 for d in mdl.decls():
@@ -356,11 +404,16 @@ SIGNED = {      # C04 (a)
 }
 NAFS = {        # C10
     "ed25519": {"recode_scalar_NAF": Spec("naf", 1, "scalar", ["x"]),
-                "recode_u128_NAF": Spec("naf", 1, "u128", ["y"], value_bits=128)},
+                "recode_u128_NAF": Spec("naf", 1, "u128", ["y"], value_bits=128, max_value=(1 << 128) - 16,
+                                        note="domain n < 2^128 - 16 (callers pass |c| < 2^127); the 16 largest "
+                                             "values wrap, see jq255e/jq255s where they are reachable")},
     "p256": {"recode_scalar_NAF": Spec("naf", 1, "scalar", ["x"]),
-             "recode_u129_NAF": Spec("naf", 1, "u129", ["y"], value_bits=129)},
+             "recode_u129_NAF": Spec("naf", 1, "u129", ["y"], value_bits=129, max_value=(1 << 129) - 16,
+                                     note="documented domain: n < 2^129 - 16")},
     "secp256k1": {"recode_scalar_NAF": Spec("naf", 1, "scalar", ["x"]),
-                  "recode_u128_NAF": Spec("naf", 1, "u128", ["y"], value_bits=128)},
+                  "recode_u128_NAF": Spec("naf", 1, "u128", ["y"], value_bits=128, max_value=(1 << 128) - 16,
+                                          note="domain n < 2^128 - 16 (callers pass split halves); the 16 largest "
+                                               "values wrap")},
     "jq255e": {"recode_scalar_NAF": Spec("naf", 1, "scalar", ["x"]),
                "recode_u128_NAF": Spec("naf", 1, "u128", ["y"], value_bits=128)},
     "jq255s": {"recode_scalar_NAF": Spec("naf", 1, "scalar", ["x"]),
@@ -368,6 +421,9 @@ NAFS = {        # C10
     "ed448": {"recode_scalar_NAF": Spec("naf", 1, "scalar", ["x"]),
               "recode_halfwidth_NAF": Spec("naf", 1, "bytes28", ["x"], value_bits=224)},
 }
+
+
+SCALAR_BYTES = {"ed448": 56}
 
 
 def scalar_order(mir, module):
@@ -399,3 +455,59 @@ def reference_digits_ok(spec, n, digits):
             if not lo <= d <= hi:
                 return False, "digit %d = %d outside [%d, %d]" % (i, d, lo, hi)
     return True, ""
+
+
+def recoder_task(mir, curve, fname, spec, timeout_ms=20000):
+    """picklable result of check_recoder"""
+    r = check_recoder(mir, curve, fname, spec, order=scalar_order(mir, curve), timeout_ms=timeout_ms,
+                      scalar_bytes=SCALAR_BYTES.get(curve, 32))
+    return {k: r.get(k) for k in ("status", "detail", "queries", "secs", "iterations", "witness", "witness_n",
+                                  "fns", "wall")}
+
+
+def native_recoder_check(run_lines, rp, curve, fname, spec, order, extra, rng, count=12):
+    """digits produced natively against the contract.  Returns (checked, mismatch dict | None, error)"""
+    vals = [v for v in extra if v is not None]
+    if spec.arg in ("u128", "u64", "u129"):
+        bits = {"u128": 128, "u64": 64, "u129": 129}[spec.arg]
+        top = spec.max_value or (1 << (spec.value_bits or bits))
+        vals += [0, 1, top - 1, top - 2, top - 15, top - 16, top - 17, top - 18, top >> 1, (top >> 1) - 9]
+        vals += [rng.randrange(top) for _ in range(count)]
+        vals = [v for v in vals if 0 <= v < top]
+    elif spec.arg == "scalar":
+        vals += [0, 1, order - 1, order - 2, (order - 1) // 2, 1 << 128, (1 << 200) - 1]
+        vals += [rng.randrange(order) for _ in range(count)]
+        vals = [v for v in vals if 0 <= v < order]
+    elif spec.arg == "bytes28":
+        vals += [0, 1, (1 << 224) - 1, (1 << 224) - 17, 1 << 223] + [rng.getrandbits(224) for _ in range(count)]
+        vals = [v for v in vals if 0 <= v < (1 << 224)]
+    lines = []
+    for v in vals:
+        if spec.arg == "u129":
+            lines.append("%s recode:%s 0 %s %s" % (curve, fname, int(v >> 128).to_bytes(4, "little").hex(),
+                                                   int(v & ((1 << 128) - 1)).to_bytes(16, "little").hex()))
+        else:
+            L = {"u128": 16, "u64": 8, "scalar": SCALAR_BYTES.get(curve, 32) + (1 if curve == "ed448" else 0),
+                 "bytes28": 28}[spec.arg]
+            lines.append("%s recode:%s 0 %s" % (curve, fname, int(v).to_bytes(L, "little").hex()))
+    res = run_lines(rp, lines)
+    checked = 0
+    for v, r, ln in zip(vals, res, lines):
+        if r[0] == "error":
+            return checked, None, r[1]
+        if r[0] == "panic":
+            return checked, dict(key="%s.%s" % (curve, fname), argument=hex(v), request=ln, native="panic"), None
+        raw = r[1][0] if r[1] else 0
+        nd = None
+        # the harness returns one byte string of digits; run_lines decoded it as a little-endian integer
+        digits = None
+        checked += 1
+        yield_digits = r[2] if len(r) > 2 else None
+        digits = yield_digits
+        if digits is None:
+            return checked, None, "harness did not return digit bytes"
+        ok, why = reference_digits_ok(spec, v, digits)
+        if not ok:
+            return checked, dict(key="%s.%s" % (curve, fname), argument=hex(v), request=ln, native_digits=digits,
+                                 why=why), None
+    return checked, None, None
